@@ -193,6 +193,7 @@ type State struct {
 	trace   []string
 	visits  map[string]int
 	maps    map[int]*MapState
+	symCells map[int]bool // cells whose content was havocked (materialised lazily)
 }
 
 func (s *State) Clone() *State {
@@ -211,6 +212,10 @@ func (s *State) Clone() *State {
 	}
 	for k, v := range s.visits {
 		n.visits[k] = v
+	}
+	n.symCells = make(map[int]bool, len(s.symCells))
+	for k, v := range s.symCells {
+		n.symCells[k] = v
 	}
 	n.maps = make(map[int]*MapState, len(s.maps))
 	for k, v := range s.maps {
